@@ -15,6 +15,8 @@ func init() {
 	commands["multirun"] = cmdMultiRun
 	commands["nested-run"] = cmdNestedRun
 	commands["health-run"] = cmdHealthRun
+	commands["bytes-run"] = cmdBytesRun
+	commands["exterr-run"] = cmdExtErrRun
 	commands["health-walks"] = cmdHealthWalks
 }
 
